@@ -76,17 +76,22 @@ Uint(n) == PreferredHead(0, FromNat(n))
 (* A perturbation pt = [site, i, how] damages exactly one tag of the top-level type: site "top" (the struct's / enum's   *)
 (* tag), "var" (the variant's tag), "f" (the tag of field i of the body); how = "wrong" (another tag number) or         *)
 (* "missing".  NoPt leaves the documented encoding.  (C09: a wrong or missing tag must be reported as an error.)        *)
-NoPt == [site |-> "none", i |-> 0, how |-> "none"]
+NoPt == [site |-> "none", i |-> 0, how |-> "none", fr |-> "def"]
+(* fr = "indef": every container of fields - struct bodies, variant bodies, the empty body of a unit variant, at every level  *)
+(* of nesting - is written as an indefinite-length array / map (C09: "whether the input container is definite or indefinite"); *)
+(* the [index, body] pair of an enum stays a definite 2-element array, which is what the documented format makes it.          *)
+IndefPt == [site |-> "none", i |-> 0, how |-> "none", fr |-> "indef"]
 TagP(t, hit, pt) == IF ~hit THEN TagPrefix(t) ELSE IF pt.how = "wrong" THEN PreferredHead(6, FromNat(t + 1)) ELSE <<>>
-RECURSIVE DocEncP(_, _, _), EncField(_, _), EncBodyP(_, _, _, _), EncArrP(_, _, _, _, _), EncMapBP(_, _, _, _)
+RECURSIVE DocEncP(_, _, _), EncFieldF(_, _, _), EncBodyP(_, _, _, _), EncArrP(_, _, _, _, _), EncMapBP(_, _, _, _)
 DocEnc(S, v) == DocEncP(S, v, NoPt)
 \* the value of a field (not nil), without its tag
-EncField(f, x) ==
+EncField(f, x) == EncFieldF(f, x, "def")
+EncFieldF(f, x, fr) ==
    CASE f.ty = "u8"    -> Uint(x.n)
      [] f.ty \in TextTys  -> PreferredHead(3, FromNat(Len(x.b))) \o x.b
      [] f.ty \in BytesTys -> PreferredHead(2, FromNat(Len(x.b))) \o x.b
      [] f.ty = "cu"    -> Uint(x.n + 1000)
-     [] OTHER          -> DocEnc(Nested(f.ty), x.sub)
+     [] OTHER          -> DocEncP(Nested(f.ty), x.sub, [NoPt EXCEPT !.fr = fr])
 Live(fields) == { i \in 1..Len(fields) : ~fields[i].skip }
 Present(fields, v) == { i \in Live(fields) : ~IsNil(fields[i], v[i]) }
 MaxOfSet(S) == CHOOSE x \in S : \A y \in S : y <= x
@@ -97,27 +102,31 @@ EncArrP(fields, v, pos, last, pt) == IF pos > last THEN <<>> ELSE
     IF s = {} THEN <<246>>
     ELSE LET i == CHOOSE j \in s : TRUE IN
          \* an absent Option is null; a nil value of a custom nil-aware codec is written by that codec
-         TagP(fields[i].tag, pt.site = "f" /\ pt.i = i, pt) \o (IF IsNil(fields[i], v[i]) /\ fields[i].ty # "cu" THEN <<246>> ELSE EncField(fields[i], v[i])))
+         TagP(fields[i].tag, pt.site = "f" /\ pt.i = i, pt) \o (IF IsNil(fields[i], v[i]) /\ fields[i].ty # "cu" THEN <<246>> ELSE EncFieldF(fields[i], v[i], pt.fr)))
    \o EncArrP(fields, v, pos + 1, last, pt)
 \* map-encoded body: index keys ascending, absent optional values omitted
 EncMapBP(fields, v, i, pt) == IF i > Len(fields) THEN <<>> ELSE
-   (IF i \in Present(fields, v) THEN Uint(fields[i].idx) \o TagP(fields[i].tag, pt.site = "f" /\ pt.i = i, pt) \o EncField(fields[i], v[i]) ELSE <<>>)
+   (IF i \in Present(fields, v) THEN Uint(fields[i].idx) \o TagP(fields[i].tag, pt.site = "f" /\ pt.i = i, pt) \o EncFieldF(fields[i], v[i], pt.fr) ELSE <<>>)
    \o EncMapBP(fields, v, i + 1, pt)
 EncBodyP(enc, fields, v, pt) ==
    LET pr == Present(fields, v) IN
    IF enc = "array" THEN
-      (IF pr = {} THEN <<128>>
-       ELSE LET last == MaxOfSet({ fields[i].idx : i \in pr }) IN PreferredHead(4, FromNat(last + 1)) \o EncArrP(fields, v, 0, last, pt))
+      (IF pr = {} THEN (IF pt.fr = "indef" THEN <<159, 255>> ELSE <<128>>)
+       ELSE LET last == MaxOfSet({ fields[i].idx : i \in pr }) IN
+            IF pt.fr = "indef" THEN <<159>> \o EncArrP(fields, v, 0, last, pt) \o <<255>>
+            ELSE PreferredHead(4, FromNat(last + 1)) \o EncArrP(fields, v, 0, last, pt))
+   ELSE IF pt.fr = "indef" THEN <<191>> \o EncMapBP(fields, v, 1, pt) \o <<255>>
    ELSE PreferredHead(5, FromNat(Cardinality(pr))) \o EncMapBP(fields, v, 1, pt)
 EncBody(enc, fields, v) == EncBodyP(enc, fields, v, NoPt)
 DocEncP(S, v, pt) ==
    IF S.kind = "struct" THEN
-      (IF S.transparent THEN EncField(S.fields[1], v[1]) ELSE TagP(S.tag, pt.site = "top", pt) \o EncBodyP(S.enc, S.fields, v, pt))
+      (IF S.transparent THEN EncFieldF(S.fields[1], v[1], pt.fr) ELSE TagP(S.tag, pt.site = "top", pt) \o EncBodyP(S.enc, S.fields, v, pt))
    ELSE LET va == S.variants[v.var] IN
         TagP(S.tag, pt.site = "top", pt) \o
         (IF S.index_only THEN Uint(va.idx)
          ELSE <<130>> \o Uint(va.idx) \o TagP(va.tag, pt.site = "var", pt) \o
-              (IF va.shape = "unit" THEN (IF va.enc = "array" THEN <<128>> ELSE <<160>>) ELSE EncBodyP(va.enc, va.fields, v.fv, pt)))
+              (IF va.shape = "unit" THEN (IF va.enc = "array" THEN (IF pt.fr = "indef" THEN <<159, 255>> ELSE <<128>>) ELSE (IF pt.fr = "indef" THEN <<191, 255>> ELSE <<160>>))
+               ELSE EncBodyP(va.enc, va.fields, v.fv, pt)))
 \* the places of a value's encoding where a tag stands (present fields only: an absent tagged field may be a bare null)
 TagSites(S, v) ==
    IF S.kind = "struct" THEN
@@ -128,7 +137,7 @@ TagSites(S, v) ==
         \cup (IF S.index_only THEN {} ELSE
                (IF va.tag >= 0 THEN {[site |-> "var", i |-> 0]} ELSE {})
                \cup (IF va.shape = "unit" THEN {} ELSE { [site |-> "f", i |-> i] : i \in { j \in Present(va.fields, v.fv) : va.fields[j].tag >= 0 } }))
-Perturbations(S, v) == { [site |-> x.site, i |-> x.i, how |-> h] : x \in TagSites(S, v), h \in {"wrong", "missing"} }
+Perturbations(S, v) == { [site |-> x.site, i |-> x.i, how |-> h, fr |-> "def"] : x \in TagSites(S, v), h \in {"wrong", "missing"} }
 \* the derived CborLen must be the length of exactly that
 DerLen(S, v) == Len(DocEnc(S, v))
 
@@ -167,6 +176,19 @@ ProjVal(Wr, Rd, wv) ==
 Project(Wr, Rd, wv) == LET r == ProjVal(Wr, Rd, wv) IN IF r[1] = "ok" THEN r ELSE <<"err">>
 
 \* ---- re-framings of an encoding that every derived decoder must accept ------------------------
+\* the whole item with every array / map indefinite ("indef") or every head one width step wider ("wide"); strings stay definite
+RECURSIVE EncFramed(_, _), EncFramedSeq(_, _)
+WiderW(w) == CASE w = 0 -> 1 [] w = 1 -> 2 [] w = 2 -> 4 [] OTHER -> 8
+FHead(mj, arg, m) == IF m = "wide" THEN HeadBytes(mj, arg, WiderW(PreferredWidth(arg))) ELSE PreferredHead(mj, arg)
+EncFramedSeq(xs, m) == IF xs = <<>> THEN <<>> ELSE EncFramed(Head(xs), m) \o EncFramedSeq(Tail(xs), m)
+EncFramed(x, m) ==
+   CASE x.t = "int"    -> FHead(IF x.neg THEN 1 ELSE 0, x.mag, m)
+     [] x.t = "bytes"  -> FHead(2, FromNat(Len(x.b)), m) \o x.b
+     [] x.t = "text"   -> FHead(3, FromNat(Len(x.b)), m) \o x.b
+     [] x.t = "arr"    -> IF m = "indef" THEN <<159>> \o EncFramedSeq(x.xs, m) \o <<255>> ELSE FHead(4, FromNat(Len(x.xs)), m) \o EncFramedSeq(x.xs, m)
+     [] x.t = "map"    -> IF m = "indef" THEN <<191>> \o EncFramedSeq(x.xs, m) \o <<255>> ELSE FHead(5, FromNat(Len(x.xs) \div 2), m) \o EncFramedSeq(x.xs, m)
+     [] x.t = "tag"    -> FHead(6, x.n, m) \o EncFramed(x.x, m)
+     [] OTHER          -> Enc(x)
 \* the outermost container of the body written with a wider head, or as an indefinite-length container
 TopHeadOffset(S) == IF S.tag < 0 THEN 0 ELSE Len(TagPrefix(S.tag))
 WiderTop(S, b) == LET p == TopHeadOffset(S)  h == HeadAt(b, p) IN
